@@ -18,7 +18,8 @@ CFG = {
             "through ApplyTransaction step by step and through StateProcessor.Process on an identical world (receipts, gas, root compared), "
             "one third with an invalid transaction; insert: BlockChain.InsertChain of blocks with an invalid transaction / wrong header gasUsed. "
             "Non-trivial = the real code accepted the transaction/block (distinct inputs counted).",
-    "tie": {"core.IntrinsicGas": "corr (ig cases) + gen (constants TxGas.. from the compiled params package)",
+    "tie": {"core.(*GasPool).SubGas / AddGas / Gas, core.(*StateTransition).useGas (mini-translator)": "translated (go/ssa -> Lean on every run; gasPool_code_is_model, useGas_code_is_model) + corr",
+            "core.IntrinsicGas": "corr (ig cases) + gen (constants TxGas.. from the compiled params package)",
             "core.GasPool.AddGas/SubGas": "corr (gp scripts)",
             "StateTransition.TransitionDb/preCheck/buyGas/refundGas (core.ApplyMessage)": "corr (msg cases; EVM observed by a depth-0 tracer and fed to the model as the parameter E)",
             "core.ApplyTransaction + loop of StateProcessor.Process": "corr (blk cases) + direct comparison Process == loop + engine.Finalize",
@@ -26,7 +27,7 @@ CFG = {
             "receipt formats (types.NewReceipt, consensus RLP)": "direct judgement + corr (hasRoot/status per receipt)",
             "vm.EVM.Call/Create contract (gas left <= given, revert on error, ErrInsufficientBalance iff CanTransfer fails)": "assumed in the theorems (C07); checked on every case by the driver (oracleObeysContract) and the harness"},
     "assumptions": ["Go runtime, math/big and the cryptographic primitives are modelled, not verified (DESIGN.md 2.5)",
-                    "the EVM is a parameter obeying the contract EvmOk (C07: gas left <= gas given, state reverted on error) — checked on every generated case, not proved here",
+                    "the general theorems take the EVM as a parameter obeying the contract EvmOk; for the C07 machine the contract is PROVED (evm_contract_over_vm, from C07 leftover_le_given_*, frame_failure_reverts_*, *_terminates, no_modelled_panic) and the *_over_vm theorems carry no EvmOk hypothesis. Residual assumptions there: TxVm.OracleOk (the machine does not interpret the world: its oracle must answer the top-level CanTransfer truthfully and its Create nonce effect must be SetNonce(caller, nonce+1)), Vm.EnvOK (generated gas table); the contract is also checked on every generated case against the real EVM",
                     "the sender is an externally owned account (SenderIsEOA): execution cannot change the sender's nonce except through evm.Create's own bump",
                     "IntrinsicGas' overflow guards cannot be exercised on the real code (they need > 2^57 data bytes); they are covered by intrinsic_gas_formula only",
                     "Homestead rules for failed_exec_only_gas (true for every built-in config: builtin_configs_homestead)"],
@@ -36,7 +37,7 @@ CFG = {
 META = {
     "technique": "Lean 4 proof (fee, nonce, gas-pool and failure equations of the transaction model for all messages and all contract-obeying EVMs) tied to core/ by differential correspondence",
     "text": "Theorems nonce_plus_one, sender_debit(+_failed,+_success_plain), coinbase_credit, gas_bounds_partial, pool_conserved, cumulative_gas, "
-            "process_gas_le_limit, validate_gas_iff, failed_exec_only_gas, invalid_tx_rejected, tx_accepted_iff, invalid_tx_invalidates_block, "
+            "process_gas_le_limit, validate_gas_iff, failed_exec_only_gas, invalid_tx_rejected, tx_accepted_iff, invalid_tx_invalidates_block, evm_contract_over_vm and the *_over_vm forms (TransitionDb over the C07 interpreter model, no EvmOk hypothesis), "
             "intrinsic_gas_formula, receipt_fields and impl_refines_spec hold for every message, world, pool and every EVM obeying the C07 contract; "
             "every run re-proves them against the regenerated gas constants and replays thousands of generated transactions and blocks through the "
             "real ApplyMessage/ApplyTransaction/Process, feeding the model what the EVM was observed to leave behind and requiring identical "
